@@ -13,7 +13,7 @@ def clean(s):
     s = re.sub(r"^(C\d\d\s*/\s*)?[Mm]utant\s+[AB]\s*[—-]+\s*", "", s.strip())
     return s
 rows = ["# Seeded changes and which checks catch them", "",
-        "Each row is a source change produced by a sub-agent from the text of one property only (scratch worktree, nothing from /verif), confirmed here: it applies, `go test ./...` passes with it, its demonstration test fails with it and passes without it.  `tools/mutcheck.sh /verif/seeded/<id>/patch.diff Cxx …` runs the quick checks on a private copy against a scratch worktree carrying the change.  \"VIOLATION with failing input\" = the check exits 1 with a replay file holding a concrete input; \"tie/correspondence only\" = exits 1 with `no-failing-input-found`.  Suffixes: A/B round 1, C/D round 2, E/F round 3, G/H round 4, I/J round 5, K/L round 6, M/N round 7, O/P round 8, Q/R round 9, S/T round 10, U/V round 11 (ten properties).", "",
+        "Each row is a source change produced by a sub-agent from the text of one property only (scratch worktree, nothing from /verif), confirmed here: it applies, `go test ./...` passes with it, its demonstration test fails with it and passes without it.  `tools/mutcheck.sh /verif/seeded/<id>/patch.diff Cxx …` runs the quick checks on a private copy against a scratch worktree carrying the change.  \"VIOLATION with failing input\" = the check exits 1 with a replay file holding a concrete input; \"tie/correspondence only\" = exits 1 with `no-failing-input-found`.  Suffixes: A/B round 1, C/D round 2, E/F round 3, G/H round 4, I/J round 5, K/L round 6, M/N round 7, O/P round 8, Q/R round 9, S/T round 10, U/V round 11 and W/X round 12 (ten properties each).", "",
         "| id | change | detection |", "|---|---|---|"]
 for k, d in metas.items():
     det = "; ".join("**%s**: %s" % (p, v.replace("|", "\\|")[:420]) for p, v in d["detection"].items())
